@@ -28,6 +28,7 @@ EXPLANATION = (
     " (R6, extended) node_length_attr reaches every node expansion of a class with length_attr; percentiles exclude the ignored edges between expanded nodes. "
     "attribute is appended to the ignore list; (R4) no `+` between an int-returning builtin and a str.  NOT decided: equality of "
     "solved status and objective with the explicit expansion."
+    " (R6, round 3) the fill-in network connects the super source / sink to the expansion's global source / sink."
 )
 DECIDED = ["results expressed in original node names", "every node-level input is translated to the expanded namespace",
            "expand/condense naming scheme agrees", "nodes lacking the attribute are ignored"]
